@@ -73,6 +73,31 @@ theorem remove_any_table_wf_partial (s : TdfSt) (t : Nat) (now : Int) (flen pos 
   rw [h3] at hwf
   exact remove_keeps_table_wf _ _ _ _ e _ hlive ⟨rfl, rfl⟩ hwf
 
+/-- FOREIGN FILES, table level (`_partial`), the ADD half: on ANY well-formed table an accepted `add_block` leaves a well-formed table,
+    provided the unused slot it takes points at or behind the end of all live data (the convention C09 states for compact files,
+    weakened to "not into live data") and not into the jump table. Without that proviso the statement is false — the property's own
+    notion of well-formed says nothing about where unused slots point — and the real code, like the model, puts the block where the
+    slot says. -/
+theorem add_any_table_wf_partial (s : TdfSt) (b : BlkArg) (c : Str) (now : Int) (flen pos : Nat) (pl : Bytes)
+    (hty : b.typ ≠ 0)
+    (hd : hasType b.typ s.entries = false) (hf : firstUnused s.entries = some pos) (hchk : checkArg b c now = .ok pl)
+    (hh : (s.entries.drop (pos + 1)).any (fun e => e.typ != 0) = false)
+    (hwf : WFTable s.nEntries flen s.entries)
+    (htab : (64 + 288 * s.nEntries : Int) ≤ (s.entries.getD pos unusedEntry).off)
+    (hend : ∀ e ∈ liveOf s.entries, e.off + e.size ≤ (s.entries.getD pos unusedEntry).off) :
+    WFTable s.nEntries (max flen ((s.entries.getD pos unusedEntry).off + b.size).toNat) (addBlock s b c now).1.entries := by
+  rw [addBlock_entries s b c now pos pl hd hf hchk hh]
+  obtain ⟨slot, h1, h2, h3⟩ := findIdxBy_some _ _ _ hf
+  have hget : s.entries.getD pos unusedEntry = slot := by simp [List.getD_eq_getElem?_getD, h1]
+  rw [hget] at htab hend ⊢
+  have hslot : slot.typ = 0 := by simpa using h2
+  have hpost : ∀ e ∈ s.entries.drop (pos + 1), e.typ = 0 := by
+    intro e he
+    have := List.any_eq_false.mp hh e he
+    simpa using this
+  rw [h3] at hwf hend
+  exact add_keeps_table_wf _ _ _ _ slot ⟨b.typ, b.fmt, slot.off, b.size, b.cdate, b.mdate, now, c⟩ _ hslot hty rfl (Int.natCast_nonneg _) hpost htab hend hwf
+
 /-- the hypothesis is met by a table that lists two blocks in the REVERSE of their storage order (N = 3, 4 960-byte file) -/
 example : WFTable 3 4960 [⟨11, 1, 4000, 960, 0, 0, 0, []⟩, ⟨16, 1, 928, 3072, 0, 0, 0, []⟩, ⟨0, 0, 4960, 0, 0, 0, 0, []⟩] := by decide
 example : (removeBlock ⟨[], [], [⟨11, 1, 4000, 960, 0, 0, 0, []⟩, ⟨16, 1, 928, 3072, 0, 0, 0, []⟩, ⟨0, 0, 4960, 0, 0, 0, 0, []⟩], 3⟩ 11 7).1.entries.map (·.off)
